@@ -20,6 +20,7 @@ CONSTANTS
   DTs = {2600000}
   Jumps <- JumpsCover
   GenVersions = {1}
+  VSet = 0
   MaxHeight = 1
   FocusVals = {1, 2}
 VIEW GView
